@@ -129,8 +129,8 @@ def run(ctx, b, broken):
 
     def cpu_times(texts):
         p = subprocess.run([_sys.executable, os.path.join(os.path.dirname(os.path.dirname(os.path.abspath(__file__))), "parsetime.py")],
-                           input=json.dumps(texts), capture_output=True, text=True, timeout=1200, env=dict(os.environ, PYTHONHASHSEED="0"))
-        return json.loads(p.stdout) if p.returncode == 0 else [-1.0] * len(texts)
+                           input=json.dumps(texts), capture_output=True, text=True, timeout=2400, env=dict(os.environ, PYTHONHASHSEED="0"))
+        return json.loads(p.stdout) if p.returncode == 0 else [[-1.0, 0]] * len(texts)
     K = 1200 if ctx.tier == "quick" else 3000
     MULT = {"linemarkers": 8, "line-directives": 10, "pragmas": 10, "big-switch": 3, "switch-label-runs": 4, "big-struct": 4, "big-enum": 6, "big-initlist": 4,
             "big-block": 4, "string-concat": 15, "wstring-concat": 15, "many-functions": 2, "typedef-uses": 4, "call-args": 5, "else-if-chain": 1}
@@ -138,18 +138,24 @@ def run(ctx, b, broken):
     small = {n_: timed(K * MULT[n_])[n_] for n_ in names}
     large = {n_: timed(2 * K * MULT[n_])[n_] for n_ in names}
     ts = cpu_times([small[n_] for n_ in names] + [large[n_] for n_ in names])
+    ctx.notes["thresholds"]["cpu_time_doubling_ratio_max"] = 3.0
+    ctx.notes["thresholds"]["function_call_doubling_ratio_max"] = 2.4
     for i, name in enumerate(names):
-        a, b_ = ts[i], ts[i + len(names)]
+        (a, ca), (b_, cb) = ts[i], ts[i + len(names)]
         ctx.evaluations += 1
         ctx.count("timed-family:" + name, int(1000 * max(b_, 0)))
         ctx.nontriv(("timed", name))
         if a < 0 or b_ < 0:
             su.violation(small[name][:300], f"timed family {name} is not accepted")
             continue
+        # deterministic: the number of function calls (Python and C level) the parse makes
+        if ca > 1000 and cb > 2.4 * ca:
+            su.violation(large[name][:300] + " ...", f"family {name}: the number of function calls grows from {ca} (k={K * MULT[name]}) to {cb} (k={2 * K * MULT[name]}), ratio {cb / ca:.2f}: more than doubling (limit 2.4)", {"family": name, "k": K})
+            continue
         ratio = b_ / max(a, 0.02)
         if ratio > 3.0 and b_ > 0.3:
             for _ in range(3):
-                a2, b2 = cpu_times([small[name], large[name]])
+                (a2, _c1), (b2, _c2) = cpu_times([small[name], large[name]])
                 if a2 > 0 and b2 > 0:
                     ratio = min(ratio, b2 / max(a2, 0.02))
         if ratio > 3.0 and b_ > 0.3:
